@@ -257,3 +257,8 @@ Definition run_djson (p : string * jv cnum) : V :=
   | None => VS "no-such-target"
   | Some fs => Vresult gval_V (c_unmarshal (TStruct fs) (jv_unhex j))
   end.
+
+(* ---- dstats suite: UnmarshalStatsJSON on an arbitrary tree ---- *)
+Definition run_dstats (j : jv cnum) : V :=
+  Vresult (fun r => VL [VS (stats_ty_name (fst r)); gval_V (snd r)])
+          (c_unmarshal_stats (jv_unhex j)).
